@@ -6,6 +6,8 @@ tracepoint configuration and injected faults - and the host-visible history must
 trace_call is observed directly at the trace seam.
 Arm "flood" (live): a loop hits a snapshot tracepoint 70-260 times while the service stalls, fails or is slow on
 every send; the host must finish with the same output whatever the collector does (no back-pressure onto the host).
+Arm "hostlock" (live): a thread-safe application class whose __repr__ takes the object's lock; two threads meet at
+one tracepoint while one of them holds that lock.
 Arm "crash" (mode D, fault enumeration): for a corpus of trigger shapes every line of agent code executed below
 trace_call is a crash point; an InjectedFault raised there must never leave trace_call.
 """
@@ -112,6 +114,9 @@ def generate(seed, tier):
         return {"arm": "flood", "hits": r.choice((70, 100, 140, 260)), "threads": r.choice((1, 1, 2)),
                 "collector": r.choice(("stalled", "stalled", "slow", "failing")), "kind": r.choice(("snapshot", "snaplog", "capture")),
                 "knobs": common.draw_knobs(r, stall_p=0.0)}
+    if r.random() < 0.04:
+        return {"arm": "hostlock", "kind": r.choice(("snapshot", "snaplog", "watch")), "order": r.choice(("b-first", "a-first")),
+                "knobs": common.draw_knobs(r, stall_p=0.0)}
     nthreads = r.choice((1, 1, 2, 3))
     pspec = {"seed": seed, "name": "simhost_%d" % (seed % 7), "nfuncs": r.randrange(2, 6),
              "offenders": r.random() < 0.6, "use_random": nthreads == 1 and r.random() < 0.5}
@@ -175,7 +180,80 @@ def shrink_candidates(s):
 
 
 def execute(s, ch):
+    if s["arm"] == "hostlock":
+        return _hostlock(s, ch)
     return _diff(s, ch) if s["arm"] == "diff" else _flood(s, ch) if s["arm"] == "flood" else _crash(s, ch)
+
+
+HOSTLOCK_SRC = '''
+class Acct:
+    def __init__(self, name):
+        self.name = name
+        self.lock = Lock()
+    def __repr__(self):
+        with self.lock:
+            return 'Acct(%s)' % self.name
+
+A1 = Acct('one')
+A2 = Acct('two')
+
+def audit(acc, out):
+    x = acc.name
+    out.append(('audited', x))
+
+def ta(out):
+    pause()
+    audit(A1, out)
+
+def tb(out):
+    with A1.lock:
+        pause()
+        pause()
+        audit(A2, out)
+'''
+
+
+def _hostlock(s, ch):
+    """A thread-safe class of the application (its __repr__ takes the object's own lock); one thread audits an object
+    another thread has locked while that thread reaches the same tracepoint.  Without the agent nobody ever waits for
+    two locks; with it, a lock of the agent held while application code runs closes the cycle."""
+    viol = []
+    info = {"pushed": 0}
+
+    def main(k):
+        p = hostgen.start_program("simlock", prelude=False)
+        for ln in HOSTLOCK_SRC.strip("\n").split("\n"):
+            p.lines.append(ln)
+        p.finish()
+        line = next(i + 1 for i, t in enumerate(p.lines) if "x = acc.name" in t)
+        w = world.World(k, python_plugin=False)
+        rec = host.Recorder(k).attach(w)
+        rec.install()
+        w.start()
+        k.settle()
+        args = {"fire_count": "-1", "fire_period": "0"}
+        if s["kind"] == "snaplog":
+            args["log_msg"] = "auditing {acc}"
+        w.service.set_config([w.service.make_tp("lk", p.basename, line, args, ["acc"] if s["kind"] == "watch" else [])], "h1")
+        w.deep.poll.poll()
+        common.wait_until(k, lambda: len(w.handler._tp_config) > 0, 30)
+        g = p.load({"Lock": shims.SimLock, "pause": lambda: k.sleep(0.001)})
+        outs = [[], []]
+        fns = [lambda: g["ta"](outs[0]), lambda: g["tb"](outs[1])]
+        if s["order"] == "a-first":
+            fns.reverse()
+            outs.reverse()
+        k.fault("host_lock_held_at_tracepoint")
+        host.run_threads(k, fns)
+        info["pushed"] = len(w.pushed)
+        for r_ in rec.raised:
+            viol.append(V("trace-call-raised:%s@%s" % (r_[5], r_[1]), "exception left trace_call: %s" % (r_,)))
+        if sorted(map(repr, outs)) != sorted(map(repr, [[("audited", "one")], [("audited", "two")]])):
+            viol.append(V("host-output-differs", str(outs)))
+        w.close()
+
+    k = common.run_in_kernel(ch, s["knobs"], main)
+    return common.result(k, viol, key=repr((s["kind"], s["order"], k.order_sig.hexdigest()[:8])) if info["pushed"] else None)
 
 
 FLOOD_SRC = '''
